@@ -137,7 +137,7 @@ def case_strategy(draw, big=False):
         case['fields'] = draw(st.sampled_from(['far', 'near', 'none']))
         case['near'] = [gen.r6(draw(st.floats(-2, 2)) * lam), gen.r6(draw(st.floats(-2, 2)) * lam), gen.r6(draw(st.floats(0.5, 2)) * lam)]
     else:
-        case['fields'] = draw(st.sampled_from(['far', 'none']))
+        case['fields'] = draw(st.sampled_from(['far', 'none', 'far+abs', 'far+near', 'all', 'all']))
     return case
 
 
@@ -331,7 +331,22 @@ def process(case, labels):
     base = {k: v for k, v in case.items() if k not in ('mode', 'fields')}
     build.assign_tags(base)
     argv = build.argv_of(base)
-    argv += ['--option=none'] if case['fields'] == 'none' else ['--theta=10,20,3', '--phi=0,45,3']
+    fld = case['fields']
+    if fld == 'none':
+        argv += ['--option=none']
+    else:
+        argv += ['--theta=10,20,3', '--phi=0,45,3']
+        if fld != 'far':
+            # several field tables in one report: their order is part of the report
+            opts_ = {'far+abs': ['far-field', 'far-field-absolute'], 'far+near': ['far-field', 'near-field'],
+                     'all': ['near-field', 'far-field-absolute', 'far-field']}[fld]
+            argv += ['--option=' + o_ for o_ in opts_]
+            if 'near-field' in opts_:
+                lam_ = gen.C_MHZ_M / case['f']
+                argv += ['--near-field=%r,%r,%r,1,1,1,1,1,1' % (2.0 * lam_, 1.5 * lam_, 2.5 * lam_)]
+            if 'far-field-absolute' in opts_:
+                argv += ['--ff-distance=1000']
+            labels.append('several-field-tables')
     nwhole = sum(1 for l in case['loads'] for a in l.get('attach', []) if isinstance(a, dict) and a.get('all'))
     outs = []
     tmp = tempfile.mkdtemp(prefix='pvc14.')
